@@ -548,6 +548,14 @@ def expandRefs : List (Nat × Nat) → List Task
   | [] => []
   | (t, n) :: rest => List.replicate n (Task.vt t) ++ expandRefs rest
 
+/-- all outputs of operator `o` have been visited: it goes to the start-up list or gets its pass (`d`: the state after the visit
+    was counted) -/
+def dfsStart (R : Rules) (G : Graph) (d : Dfs) (o : Nat) : Dfs :=
+  if startupInitOps.contains (G.op o).type then { d with startup := d.startup ++ [o] }
+  else match buildPass R G o with
+    | .error e => d.fail e
+    | .ok p => { d with passes := p :: d.passes, stack := expandRefs p.inputRefs ++ d.stack }
+
 def dfsStep (R : Rules) (G : Graph) (d : Dfs) : Dfs :=
   match d.stack with
   | [] => d
@@ -563,11 +571,7 @@ def dfsStep (R : Rules) (G : Graph) (d : Dfs) : Dfs :=
     let n := d.doneO.count o + unusedOutputs G o
     let c := (G.op o).outputs.length
     if n > c then d.fail "assert visit_op_refcount[op] <= len(op.outputs)"
-    else if n == c then
-      if startupInitOps.contains (G.op o).type then { d with startup := d.startup ++ [o] }
-      else match buildPass R G o with
-        | .error e => d.fail e
-        | .ok p => { d with passes := p :: d.passes, stack := expandRefs p.inputRefs ++ d.stack }
+    else if n == c then dfsStart R G d o
     else d
 
 def dfsRun (R : Rules) (G : Graph) : Nat → Dfs → Dfs
